@@ -214,6 +214,7 @@ type World struct {
 	inconclusive string
 	coq          bool // the case can be expressed for the model
 	coqWhy       string
+	imu          sync.Mutex
 }
 
 func newWorld(cfg Config) (*World, error) {
@@ -239,6 +240,14 @@ func newWorld(cfg Config) (*World, error) {
 	}
 
 	return w, nil
+}
+
+func (w *World) setInconclusive(why string) {
+	w.imu.Lock()
+	if w.inconclusive == "" {
+		w.inconclusive = why
+	}
+	w.imu.Unlock()
 }
 
 func (w *World) noCoq(why string) {
